@@ -65,5 +65,5 @@ def run(out):
         "core::str::count::do_count_chars loops unwound once; their unwinding assertions prove them unreachable at these sizes",
     ]
     run_k(out, "c22", "parser", hs, jobs=14, harness_timeout=900,
-          overall_timeout=1500 if tier == "quick" else 6 * 3600, mem_gb=12)
+          overall_timeout=3600 if tier == "quick" else 6 * 3600, mem_gb=12)
     docflow.run_doc(out, ["doc_client_range"])
